@@ -13,7 +13,7 @@ TIE = ('K: jacobianSpace / jacobianBody of lean/BR/Model/MR.lean (Float instance
 TRUSTED = ['Lean 4.33 kernel + Mathlib v4.33 (axioms: propext, Classical.choice, Quot.sound)', 'harness/armh.py, harness/c06.py (Richardson differences with steps >= 1e-4, frame references from the constructor arguments)',
            'the derivative clause is decided on the implementation (finite differences), the algebraic clauses are theorems']
 ASSUMPTIONS = ['joint vectors within limits; steps >= 1e-4 so the 1e-6 cut-off of the exponential is never entered', 'comparison to 1e-6 relative to the Jacobian norm']
-RULE = ('arms (6R test arm with link frames and masses, random 1..7-joint chains, bundled URDF arms; after move and tool change) x joint vectors x rates x wrenches; '
+RULE = ('arms (6R test arm with link frames and masses, random 1..7-joint chains, bundled URDF arms; after move, tool change and tool restore) x joint vectors x rates x wrenches; '
         'distinct = distinct (arm, configuration); non-trivial = configuration not the zero vector')
 SAMPLED = ['J = d(FK)/d(theta) (Richardson central differences on the implementation)', 'numericalJacobian = analytic (finite differences)']
 
@@ -88,6 +88,11 @@ def run(res, tier, seed, driver_ok):
             if rnd.random() < 0.4:
                 D = list(np.concatenate([G.translation(rnd, 0.3), G.rotvec(rnd, 'one')[0]]))
                 arm.setArbitraryHome(arm.getEEPos() @ tm(D)); hist.append(['setHome', D]); stats['after_toolchange'] += 1
+                if rnd.random() < 0.5:
+                    arm.restoreOriginalEE(); hist.append(['restoreOriginalEE']); stats['after_restore'] = stats.get('after_restore', 0) + 1
+                    if rnd.random() < 0.3:
+                        b3 = list(np.concatenate([G.translation(rnd, 1.5), G.rotvec(rnd, 'generic')[0]]))
+                        arm.move(tm(b3)); hist.append(['move', b3])
         mins = np.maximum(np.asarray(arm.joint_mins, dtype=float), -math.pi); maxs = np.minimum(np.asarray(arm.joint_maxs, dtype=float), math.pi)
         th = np.array([rnd.uniform(mins[i] * 0.9, maxs[i] * 0.9) for i in range(nj)])
         inp = dict(info, history=hist, theta=th.tolist())
